@@ -57,6 +57,8 @@ type Report struct {
 	TimeNowSites        []string `json:"time_now_sites"`
 	RandSites           []string `json:"rand_sites"`
 	RandRewritten       int      `json:"rand_calls_rewritten"`
+	PoolRewritten       int      `json:"syncpool_calls_rewritten"`
+	PoolUncontrolled    []string `json:"syncpool_uncontrolled"`
 	AfterFuncSites      []string `json:"afterfunc_sites"`
 	CondWaitSites       []string `json:"cond_uncontrolled_sites"`
 	CondRewritten       int      `json:"cond_calls_rewritten"`
@@ -470,6 +472,18 @@ func instrumentFile(p *packages.Package, f *ast.File, path string) *fileEdits {
 					rep.CondRewritten++
 				} else {
 					rep.CondWaitSites = append(rep.CondWaitSites, where(x.Pos()))
+				}
+			}
+			if recv, name, ok := syncCall(x, "Pool"); ok && (name == "Get" || name == "Put") {
+				if arg, ok := recvArg(recv); ok {
+					if name == "Get" {
+						fe.add(off(x.Fun.Pos()), off(x.Rparen)+1, "verifsim.PoolGet("+arg+")")
+					} else {
+						fe.add(off(x.Fun.Pos()), off(x.Lparen)+1, "verifsim.PoolPut("+arg+", ")
+					}
+					rep.PoolRewritten++
+				} else {
+					rep.PoolUncontrolled = append(rep.PoolUncontrolled, where(x.Pos()))
 				}
 			}
 			if _, name, ok := syncCall(x, "WaitGroup"); ok && name == "Wait" {
